@@ -28,8 +28,10 @@ type SymbolGraph struct {
 	nextEdgeSeq uint32
 	edges       map[string]map[string]SymbolEdgeDescriptor // Node relations
 
-	deps    map[string]map[graphs.SymbolKey]struct{} // from -> set of to
-	revDeps map[string]map[graphs.SymbolKey]struct{} // to   -> set of from
+	// The dependency indices are keyed by base (non-versioned) IDs on both levels, exactly like
+	// 'edges', so that keys computed against different versions of a file address the same entry
+	deps    map[string]map[string]graphs.SymbolKey // from -> to base ID -> to
+	revDeps map[string]map[string]graphs.SymbolKey // to   -> from base ID -> from
 }
 
 func NewSymbolGraph() SymbolGraph {
@@ -37,8 +39,8 @@ func NewSymbolGraph() SymbolGraph {
 		lookupKeys: map[string]graphs.SymbolKey{},
 		edges:      make(map[string]map[string]SymbolEdgeDescriptor),
 		nodes:      make(map[string]*SymbolNode),
-		deps:       make(map[string]map[graphs.SymbolKey]struct{}),
-		revDeps:    make(map[string]map[graphs.SymbolKey]struct{}),
+		deps:       make(map[string]map[string]graphs.SymbolKey),
+		revDeps:    make(map[string]map[string]graphs.SymbolKey),
 	}
 }
 
@@ -63,14 +65,14 @@ func (g *SymbolGraph) AddEdge(from, to graphs.SymbolKey, kind SymbolEdgeKind, me
 
 	// ensure deps / revDeps
 	if g.deps[fromBaseId] == nil {
-		g.deps[fromBaseId] = make(map[graphs.SymbolKey]struct{})
+		g.deps[fromBaseId] = make(map[string]graphs.SymbolKey)
 	}
-	g.deps[fromBaseId][to] = struct{}{}
+	g.deps[fromBaseId][toBaseId] = to
 
 	if g.revDeps[toBaseId] == nil {
-		g.revDeps[toBaseId] = make(map[graphs.SymbolKey]struct{})
+		g.revDeps[toBaseId] = make(map[string]graphs.SymbolKey)
 	}
-	g.revDeps[toBaseId][from] = struct{}{}
+	g.revDeps[toBaseId][fromBaseId] = from
 
 	inner := g.edges[fromBaseId]
 	if inner == nil {
@@ -121,14 +123,14 @@ func (g *SymbolGraph) RemoveEdge(from, to graphs.SymbolKey, kind *SymbolEdgeKind
 	}
 
 	if depsMap, ok := g.deps[fromBase]; ok {
-		delete(depsMap, to)
+		delete(depsMap, toBase)
 		if len(depsMap) == 0 {
 			delete(g.deps, fromBase)
 		}
 	}
 
 	if revMap, ok := g.revDeps[toBase]; ok {
-		delete(revMap, from)
+		delete(revMap, fromBase)
 		if len(revMap) == 0 {
 			delete(g.revDeps, toBase)
 		}
@@ -370,7 +372,7 @@ func (g *SymbolGraph) GetEdges(key graphs.SymbolKey, kinds []SymbolEdgeKind) map
 
 	// 2) Incoming edges (parents -> key). Use revDeps to find parents.
 	if parents, ok := g.revDeps[mapKey]; ok {
-		for parentKey := range parents {
+		for _, parentKey := range parents {
 			parentBase := parentKey.BaseId()
 			if parentEdges, ok := g.edges[parentBase]; ok {
 				for innerKey, desc := range parentEdges {
@@ -561,10 +563,10 @@ func (g *SymbolGraph) Parents(node *SymbolNode, behavior *TraversalBehavior) []*
 
 func (g *SymbolGraph) parentsUnsorted(node *SymbolNode, behavior *TraversalBehavior) []*SymbolNode {
 	var result []*SymbolNode
-	for parentKey := range g.revDeps[node.Id.BaseId()] {
+	for _, parentKey := range g.revDeps[node.Id.BaseId()] {
 		edges := g.edges[parentKey.BaseId()]
 		for _, edgeDescriptor := range edges {
-			if edgeDescriptor.Edge.To != node.Id {
+			if edgeDescriptor.Edge.To.BaseId() != node.Id.BaseId() {
 				continue
 			}
 			if !shouldIncludeEdge(edgeDescriptor.Edge, behavior) {
@@ -581,10 +583,10 @@ func (g *SymbolGraph) parentsUnsorted(node *SymbolNode, behavior *TraversalBehav
 
 func (g *SymbolGraph) parentsSorted(node *SymbolNode, behavior *TraversalBehavior) []*SymbolNode {
 	var results []SymbolNodeWithOrdinal
-	for parentKey := range g.revDeps[node.Id.BaseId()] {
+	for _, parentKey := range g.revDeps[node.Id.BaseId()] {
 		edges := g.edges[parentKey.BaseId()]
 		for _, edgeDescriptor := range edges {
-			if edgeDescriptor.Edge.To != node.Id {
+			if edgeDescriptor.Edge.To.BaseId() != node.Id.BaseId() {
 				continue
 			}
 			if !shouldIncludeEdge(edgeDescriptor.Edge, behavior) {
@@ -736,7 +738,7 @@ func (g *SymbolGraph) RemoveNode(key graphs.SymbolKey) {
 	// RemoveEdge mutates our internals state so we 'snapshot' dependents (nodes that had edges -> key)
 	var dependents []graphs.SymbolKey
 	if revs, ok := g.revDeps[idToRemove]; ok {
-		for fromKey := range revs {
+		for _, fromKey := range revs {
 			dependents = append(dependents, fromKey)
 		}
 	}
@@ -753,7 +755,7 @@ func (g *SymbolGraph) RemoveNode(key graphs.SymbolKey) {
 		// it's an isOrphaned if it has no outgoing dependency to an existing node.
 		isOrphaned := true
 		if depsMap, ok := g.deps[dependentBaseId]; ok {
-			for toKey := range depsMap {
+			for _, toKey := range depsMap {
 				if _, exists := g.nodes[toKey.BaseId()]; exists {
 					// There's an outbound dependency - not an orphan
 					isOrphaned = false
@@ -823,7 +825,7 @@ func (g *SymbolGraph) String() string {
 		// Incoming (reverse) dependencies
 		if revs, ok := g.revDeps[key]; ok && len(revs) > 0 {
 			sb.WriteString("  Dependents:\n")
-			for fromKey := range revs {
+			for _, fromKey := range revs {
 				fromNode := g.nodes[fromKey.BaseId()]
 				linkedPrettyKey := fromKey.PrettyPrint()
 				sb.WriteString(fmt.Sprintf("    • [%s] %s\n", fromNode.Kind, linkedPrettyKey))
